@@ -33,6 +33,8 @@ class StubEzsp:
     async def setMulticastTableEntry(self, idx, entry):
         import bellows.types as t
 
+        # a command is a round trip to the NCP: the caller is suspended until the response arrives
+        await asyncio.sleep(0)
         self.writes.append((int(idx), int(entry.multicastId), int(entry.endpoint)))
         a = self.next_answer
         if a == "t":
@@ -69,6 +71,21 @@ async def run_seq(tab, ops):
             if op[0] == "I":
                 await mc._initialize()
                 res = "OK"
+            elif op[0] == "T":
+                # start-up proper: table scan, then the groups of the coordinator's endpoints (ZDO endpoint 0 is skipped)
+                ez.next_answer = "o"
+
+                class _Ep:
+                    def __init__(self, groups):
+                        self.member_of = {g: None for g in groups}
+
+                class _Coord:
+                    endpoints = {0: _Ep([99])}
+
+                for n, groups in enumerate(op[1]):
+                    _Coord.endpoints[n + 1] = _Ep(groups)
+                await mc.startup(_Coord())
+                res = "OK"
             elif op[0] == "S":
                 ez.next_answer = op[2]
                 st = await mc.subscribe(op[1])
@@ -83,7 +100,7 @@ async def run_seq(tab, ops):
             res = f"RAISED:{type(e).__name__}"
         after = host_state(mc)
         w = ez.writes[0] if ez.writes else None
-        recs.append({"op": op, "res": res, "write": w, "nwrites": len(ez.writes), "before": before, "after": after,
+        recs.append({"op": op, "res": res, "write": w, "nwrites": len(ez.writes), "writes": list(ez.writes), "before": before, "after": after,
                      "tab_before": tab_before, "tab": [tuple(e) for e in ez.tab]})
     return recs
 
@@ -103,8 +120,19 @@ def driver_line(tab, recs):
     ops = []
     for r in recs:
         op = r["op"]
+        r["nmodel"] = 1
         if op[0] == "I":
             ops.append("I")
+        elif op[0] == "T":
+            # the model's start-up is the scan followed by one subscribe per group in endpoint order; the index each
+            # write went to is the element `pop()` happened to pick: it is read off the implementation's writes, in order
+            ops.append("I")
+            ws = list(r["writes"])
+            for groups in op[1]:
+                for g in groups:
+                    c = ws.pop(0)[0] if ws and ws[0][1] == g else 0
+                    ops.append(f"S/{g}/{c}/o")
+                    r["nmodel"] += 1
         elif op[0] == "S":
             a = {"o": "o", "t": "t", "r": f"r{REJ}"}[op[2]]
             choice = r["write"][0] if r["write"] else 0
@@ -131,7 +159,7 @@ def oracle(tab0, recs):
         op = r["op"]
         m, av = r["after"]
         size = len(r["tab"])
-        if op[0] == "I":
+        if op[0] in "IT":
             started = True
         if not started:
             continue
@@ -158,7 +186,7 @@ def oracle(tab0, recs):
         if op[0] in "SU" and r["res"] != "OK" and len(av) != len(avb):
             kind = "leak-subscribe-timeout" if (op[0] == "S" and op[2] == "t") else "failed-call-free-count"
             return k, kind, f"failing {op} changed the number of free indices {len(avb)} -> {len(av)}"
-        if r["nwrites"] > 1:
+        if r["nwrites"] > 1 and op[0] != "T":
             return k, "writes", f"{op} wrote {r['nwrites']} table entries"
     return None
 
@@ -166,7 +194,9 @@ def oracle(tab0, recs):
 def initial_tables(size):
     """every table content in which each group appears at most once (endpoint non-zero),
     free slots hold group 0 or a stale group id with endpoint 0"""
-    cells = [(0, 0), (6, 0)] + [(g, 1) for g in GROUPS]
+    # endpoints other than the one bellows writes itself: entries left by other host software (2) or for the
+    # Green Power endpoint (242) are programmed entries like any other ("a non-zero endpoint")
+    cells = [(0, 0), (6, 0)] + [(g, 1) for g in GROUPS] + [(GROUPS[0], 2), (GROUPS[-1], 242)]
     for t in itertools.product(cells, repeat=size):
         used = [g for g, e in t if e]
         if len(used) == len(set(used)):
@@ -204,6 +234,16 @@ def run(ctx, depth=None, budget=None):
         n = ctx.rng.randint(5, 14)
         allops = ops + [("S", 7, a) for a in "ort"] + [("U", 7, a) for a in "ort"]
         cases.append((tab, (("I",),) + tuple(ctx.rng.choice(allops) for _ in range(n))))
+    # start-up proper with the coordinator's endpoint groups (a group may be listed by several endpoints)
+    G = GROUPS
+    memberships = [((G[0],),), ((G[0],), (G[0],)), ((G[0], G[1]), (G[1], G[0])), ((G[0],), (G[1],), (G[0],)), ((), (G[1], G[1]))]
+    for size in range(0, 5):
+        tabs = list(initial_tables(size))
+        ctx.rng.shuffle(tabs)
+        for tab in tabs[: ctx.n(8, 40)]:
+            for mem in memberships:
+                cases.append((tab, (("T", mem),)))
+                cases.append((tab, (("T", mem), ("U", G[0], "o"), ("S", G[0], "o"))))
     if budget and len(cases) > budget:
         cases = cases[:budget]
 
@@ -224,16 +264,26 @@ def run(ctx, depth=None, budget=None):
         if bad:
             k, kind, msg = bad
             ctx.violation(msg, {"kind": kind}, {"table": tab, "ops": [list(o) for o in seq[: k + 1]]})
-        if model is not None:
+        if model is not None and any(r["op"][0] == "T" for r in recs):
+            # a start-up call spans several model steps: compare the state after it (and every other call in full)
+            ments = model[idx].split(" ")
+            pos = 0
+            for r, mine in zip(recs, impl_line(recs).split(" ")):
+                pos += r["nmodel"]
+                ment = ments[pos - 1] if pos - 1 < len(ments) else "?"
+                if (mine.split("|")[2:] != ment.split("|")[2:]) if r["op"][0] == "T" else (mine != ment):
+                    ctx.corr_diff("multicast trace differs from the model (start-up)", {"table": tab, "ops": [list(map(str, o)) for o in seq]}, mine, ment)
+                    break
+        elif model is not None:
             got = impl_line(recs)
             if got != model[idx]:
                 ctx.corr_diff("multicast trace differs from the model", {"table": tab, "ops": [list(o) for o in seq]}, got, model[idx])
         if idx % 9000 == 11:
             ctx.sample({"table": tab, "ops": [list(o) for o in seq], "impl": impl_line(recs), "model": model[idx] if model else None})
     ctx.cov["distinct_nontrivial"] = nontrivial
-    ctx.cov["rule"] = (f"groups {GROUPS}, table sizes 0..4, initial tables with each group at most once (all for sizes 0..2, a seeded sample for 3..4), "
+    ctx.cov["rule"] = (f"groups {GROUPS}, table sizes 0..4, initial tables with each group at most once, programmed with endpoint 1, 2 or 242 (all for sizes 0..2, a seeded sample for 3..4), "
                        f"start-up followed by every sequence of length ≤ {depth} over {{start-up, subscribe g, unsubscribe g}} × answers {{success, rejection, timeout}} "
-                       "plus seeded random longer histories; non-trivial = contains a failing table write; sequences are distinct by construction")
+                       "plus seeded random longer histories; start-up proper (table scan + the groups of the coordinator's endpoints, a group listed by one or several endpoints);  non-trivial = contains a failing table write; sequences are distinct by construction")
     ctx.exhaustive = True
 
 
